@@ -654,7 +654,27 @@ func (h *hist) applyVote(o *op, tr *abci.ExecTxResult) bool {
 	ws := wrappedSum(o.signals)
 	wraps := !sum.IsInt64() || sum.Int64() != ws
 	valid := validVote(o.signals)
-	modelOK := valid && uint64(len(o.signals)) <= h.p.MaxCurrentFeeds && sum.Cmp(P) <= 0
+	// a signal's total is an int64 on chain: a vote that would take the total ACROSS voters beyond it has to be refused
+	// (accepting it would store a total that is not the sum of the standing votes)
+	crossOver := false
+	if valid {
+		tot := h.totals()
+		for _, s := range o.signals {
+			others := new(big.Int)
+			if tot[s.ID] != nil {
+				others.Set(tot[s.ID])
+			}
+			for _, old := range v.vote {
+				if old.ID == s.ID {
+					others.Sub(others, big.NewInt(old.Power))
+				}
+			}
+			if !others.Add(others, big.NewInt(s.Power)).IsInt64() {
+				crossOver = true
+			}
+		}
+	}
+	modelOK := valid && uint64(len(o.signals)) <= h.p.MaxCurrentFeeds && sum.Cmp(P) <= 0 && !crossOver
 	isWrapTpl := strings.HasPrefix(o.tpl, "wrap:") || strings.HasPrefix(o.tpl, "huge:")
 	if wraps {
 		run.Count("wrap-votes-sent", 1)
@@ -670,6 +690,9 @@ func (h *hist) applyVote(o *op, tr *abci.ExecTxResult) bool {
 		}
 		if !valid {
 			run.Count("vote:invalid-rejected["+o.tpl+"]", 1)
+		}
+		if crossOver && sum.Cmp(P) <= 0 {
+			run.Count("vote:total-across-voters-beyond-int64-rejected", 1)
 		}
 		if valid && uint64(len(o.signals)) > h.p.MaxCurrentFeeds {
 			run.Count("vote:too-many-signals-rejected", 1)
@@ -1141,8 +1164,14 @@ func runHistory(run *sim.Run, col *collector, caseID int) {
 	}
 	update := sim.Pick(rng, []int64{1, 2, 3, 5, 10})
 	allow := sim.Pick(rng, [][]string{{"uabc"}, {"uabc", "uxyz"}, {"uxyz", "uband"}, {"uabc", "uxyz", "uband"}, {}})
+	whales := caseID%6 == 2 // two voters own 6e18 units each of an 18-decimals style denom: together more than an int64 holds
+	var coins sdk.Coins
+	if whales {
+		allow = []string{"uabc", "uxyz"}
+		coins = sdk.NewCoins(sdk.NewInt64Coin("uband", 1_000_000_000_000), sdk.NewInt64Coin("uabc", 8_000_000_000_000_000_000), sdk.NewInt64Coin("uxyz", 1_000_000_000_000))
+	}
 	w := sim.NewWorld(sim.Config{
-		Seed: rng.U64(), NumVals: nVals, NumUsers: nUsers, NoInflation: true,
+		Seed: rng.U64(), NumVals: nVals, NumUsers: nUsers, NoInflation: true, UserCoins: coins,
 		Genesis: func(w *sim.World, gs band.GenesisState) {
 			cdc := w.App.AppCodec()
 			var fg feedstypes.GenesisState
@@ -1199,8 +1228,20 @@ func runHistory(run *sim.Run, col *collector, caseID int) {
 			ops = append(ops, &op{kind: "stake", voter: vi, denom: sim.Pick(rng, []string{"uabc", "uxyz", "uband"}), amt: scale*int64(rng.Range(1, 4)) + int64(rng.Intn(1000))})
 		}
 	}
+	if whales {
+		for vi := 0; vi < 2; vi++ {
+			ops = append(ops, &op{kind: "stake", voter: vi, denom: "uabc", amt: 6_000_000_000_000_000_000})
+		}
+	}
 	if !h.runBlock(ops, time.Second) {
 		return
+	}
+	if whales {
+		// both vote all they own for the same signal, in one block: the second would take the total beyond int64
+		big := []feedstypes.Signal{feedstypes.NewSignal(h.pool[0], 6_000_000_000_000_000_000)}
+		if !h.runBlock([]*op{{kind: "vote", voter: 0, signals: big, tpl: "whale"}, {kind: "vote", voter: 1, signals: big, tpl: "whale"}}, time.Second) {
+			return
+		}
 	}
 
 	nBlocks := rng.Range(40, 70)
@@ -1318,7 +1359,7 @@ func main() {
 		"current-feeds-updates-nonempty", "current-feeds:more-eligible-than-max (cut exercised)", "current-feeds:signal-with-power==threshold",
 		"current-feeds:signal-with-power==threshold-1", "current-feeds:interval-clamped-to-min", "current-feeds:interval-above-min",
 		"index-entries-compared", "signal-totals-compared", "locks-compared", "per-tx-total-power-events-compared",
-		"allowed-denoms-changed-mid-history", "voter-holds-stake-in-delisted-denom"} {
+		"allowed-denoms-changed-mid-history", "voter-holds-stake-in-delisted-denom", "vote:total-across-voters-beyond-int64-rejected"} {
 		run.Require(c, 1)
 	}
 	run.Finish()
